@@ -118,6 +118,11 @@ Additions for data.py (Screen / ExperimentSpace save_h5, load_h5, from_screen):
   cfg["with_return"]  True: `return e` inside a `with E as x:` block over a declared context (not inside a loop) is the
                       function's return: e is evaluated while the context is open, __exit__ runs afterwards and - as
                       cfg["contexts"] already trusts - changes no value (closing a file).  Without the flag it is refused.
+Additions for scoring/gaussian_dbal.py (GaussianDBALScorer.score and the dbal_fast_* entry points):
+  `d[k]` (read), d : dict T   a checked lookup, PyRt.dict_get (KeyError = Err 96); inside a comprehension it is evaluated element by
+                      element from the left (res_map_all).  A subscript of anything else, a slice or a tuple index stays refused
+                      (unless a cfg["prims"] pattern gives it a meaning).
+  truth value of a Z  `if n` / `if not n` with n an int (e.g. `if not len(plates)`): n is not zero, `negb (n =? 0)`
 """
 import ast
 
@@ -422,6 +427,17 @@ class Tr:
             if len(e.ops) != 1:
                 raise Unsupported("chained comparison: " + ast.unparse(e))
             return self.compare(e.left, e.ops[0], e.comparators[0], env, hoist), ("bool",)
+        if isinstance(e, ast.Subscript) and not isinstance(e.slice, (ast.Slice, ast.Tuple)) and self.M["type"] == "result":
+            # d[k] read on a `dict T`: checked lookup (PyRt.dict_get, KeyError = Err 96); any other subscript is refused
+            mark = len(hoist)
+            d, dt = self.expr(e.value, env, hoist)
+            if dt[0] != "dictof":
+                del hoist[mark:]
+                raise Unsupported("subscript of a %s: %s" % (dt, ast.unparse(e)))
+            kk, kt = self.expr(e.slice, env, hoist)
+            n = self.new("r")
+            hoist.append((n, "dict_get %s %s" % (d, self.need(kk, kt, ("Z",), hoist))))
+            return n, dt[1]
         raise Unsupported("expression: " + ast.unparse(e))
 
     def kwcall(self, e, env, hoist):
@@ -506,6 +522,8 @@ class Tr:
             # an optional OBJECT (opaque type): truthy iff not None.  Optional ints / bools / containers are refused:
             # 0, False and empty containers are falsy too, `is_some` would be wrong for them
             return "(is_some %s)" % v
+        if t == ("Z",):     # truth value of an int: it is not zero (`if not len(d)`, `if not n`)
+            return "(negb (%s =? 0))" % v
         raise Unsupported("truth value of a %s: %s" % (t, ast.unparse(e)))
 
     def compare(self, le, op, re, env, hoist):
